@@ -148,6 +148,7 @@ func cmdCheck(args []string) int {
 	replayDir := fs.String("replaydir", "/verif/evidence/replay", "directory for replay files")
 	expectFile := fs.String("expect", "/verif/expected.json", "expected minimum counts")
 	level := fs.String("level", "proof", "evidence level to report")
+	dumpFail := fs.String("dumpfail", "", "directory for the SMT scripts of failing obligations (debugging)")
 	fs.Parse(args)
 	if *prop == "" {
 		fmt.Fprintln(os.Stderr, "check: -prop required")
@@ -339,6 +340,10 @@ func cmdCheck(args []string) int {
 			continue
 		}
 		fails = append(fails, failure{ob, ob.Result.Status})
+		if *dumpFail != "" && ob.x != nil {
+			os.MkdirAll(*dumpFail, 0o755)
+			os.WriteFile(filepath.Join(*dumpFail, sanitize(ob.Name)+".smt2"), []byte(ob.Script(true)), 0o644)
+		}
 	}
 	// 4. report
 	violations := 0
